@@ -308,13 +308,17 @@ func (s *ManagedServer) DeleteCredential(username string) error {
 // LoadFromFile loads credentials from the configured credential file
 // and applies the changes to the associated credential stores.
 func (s *ManagedServer) LoadFromFile() error {
+	// Read the file with the lock held. Otherwise a save could replace the file
+	// between the read and the comparison with cachedContent below, and the stale
+	// content would be loaded over the changes that were just saved.
+	s.mu.Lock()
 	content, close, err := mmap.ReadFile[string](s.path)
 	if err != nil {
+		s.mu.Unlock()
 		return err
 	}
 	defer close()
 
-	s.mu.Lock()
 	// Skip if the file content is unchanged since the last successful load or save.
 	if s.cachedCredMap != nil && content == s.cachedContent {
 		s.mu.Unlock()
